@@ -282,4 +282,35 @@ theorem broadcastShape_self (s fs : List Nat) (h : broadcastShape s s = .ok fs) 
   have := (hk k hk1).2
   split at this <;> omega
 
+theorem zero_mem_iff_fromEnd (r : List Nat) : 0 ∈ r ↔ ∃ k, k < r.length ∧ fromEnd r k = 0 := by
+  constructor
+  · intro hm
+    have hm' : 0 ∈ r.reverse := by simpa using hm
+    obtain ⟨k, hk, hk'⟩ := List.getElem_of_mem hm'
+    have hk2 : k < r.length := by simpa using hk
+    have := fromEnd_getElem? r k hk2
+    rw [List.getElem?_eq_getElem hk, hk'] at this
+    exact ⟨k, hk2, by simpa using this.symm⟩
+  · rintro ⟨k, hk, h0⟩
+    have := fromEnd_getElem? r k hk
+    rw [h0] at this
+    simpa using List.mem_of_getElem? this
+
+/-- a zero length on an aligned axis fails `is_broadcastable` -/
+theorem isBroadcastable_false_of_zero (s t : List Nat) (k : Nat) (hk1 : k < s.length) (hk2 : k < t.length)
+    (h : fromEnd s k = 0 ∨ fromEnd t k = 0) : isBroadcastable s t = false := by
+  cases hi : isBroadcastable s t
+  · rfl
+  · have := (isBroadcastable_iff_fromEnd s t).1 hi k hk1 hk2
+    simp only [dimClash, Bool.or_eq_false_iff, Bool.and_eq_false_iff, bne_eq_false_iff_eq,
+      beq_eq_false_iff_ne] at this
+    omega
+
+theorem isBroadcastable_nonzero (s t : List Nat) (h : isBroadcastable s t = true) (k : Nat) (hk1 : k < s.length)
+    (hk2 : k < t.length) : fromEnd s k ≠ 0 ∧ fromEnd t k ≠ 0 := by
+  have := (isBroadcastable_iff_fromEnd s t).1 h k hk1 hk2
+  simp only [dimClash, Bool.or_eq_false_iff, Bool.and_eq_false_iff, bne_eq_false_iff_eq,
+    beq_eq_false_iff_ne] at this
+  omega
+
 end ArrModel
